@@ -198,6 +198,7 @@ def gen(seed, ident_base=1000) -> dict:
         "gran": g.choice(["line", "line", "instr"]),
         "final_probe": True,
         "crowd": (g.choice([64, 70, 100]) if g.random() < 0.008 else 0),
+        "werror": g.random() < 0.2,
     }
 
 
@@ -464,6 +465,17 @@ def run_one(spec: dict) -> dict:
                     if any(s is not None for i, s in w.scopes.items() if i != t.idx):
                         w.probe("exit_while_other_in_scope")
                     w.scopes[t.idx] = None
+                except Warning as e:
+                    # strict-warnings world: a warning escalated to an error out of the open attempt makes it a
+                    # rejected attempt like any other - nothing a later read can observe may have changed
+                    if entered:
+                        raise
+                    w.scopes[t.idx] = None
+                    w.log(t.idx, "enter", op[1], "rejected:" + type(e).__name__)
+                    w.probe("open_rejected_by_escalated_warning")
+                    t.ctx["after_bad"] = True
+                    t.ctx["ever_bad"] = True
+                    continue
                 except ConfigException as e:
                     if entered:
                         w.scopes[t.idx] = None
@@ -635,12 +647,22 @@ def run_one(spec: dict) -> dict:
                 w.probes["switch_at_" + kind] = w.probes.get("switch_at_" + kind, 0) + 1
 
     sched.yield_point = counting_yield  # type: ignore
+    import warnings
+
+    saved_filters = warnings.filters[:]
+    if spec.get("werror"):
+        # the process runs with warnings escalated to errors (-W error / PYTHONWARNINGS=error / pytest filterwarnings)
+        warnings.simplefilter("error")
+        w.probe("strict_warnings_world")
     try:
         sched.run()
     finally:
         if _tracer is not None:
             _tracer.enabled = False
         _apply_env({})
+        if spec.get("werror"):
+            warnings.filters[:] = saved_filters
+            warnings._filters_mutated()
     for t in sched.threads:
         if t.exc is not None:
             if isinstance(t.exc, HarnessError):
